@@ -181,9 +181,9 @@ func (t Time) Sub(input Quantity) (Time, error) {
 func roundToTimePrecision(p timePrecision, d time.Duration) time.Duration {
 	switch p {
 	case hour:
-		return d / time.Hour
+		return d.Truncate(time.Hour)
 	case minute:
-		return d / time.Minute
+		return d.Truncate(time.Minute)
 	default:
 		return d
 	}
